@@ -593,6 +593,17 @@ func streamLimit(c *Ctx) {
 		return
 	}
 	eagerDecompressorProbe(c)
+	// the transport fails while an over-limit message is being thrown away (F19): an error that
+	// already carries a code keeps it; one that wraps io.EOF is the body running out
+	for _, n := range []int{4, 64} {
+		for _, tail := range []string{"coded:1:0", "coded:4:0", "coded:14:1", "err", "ueof", "eof"} {
+			for _, have := range []int{0, 3, n + 4} {
+				over := frame(0, bytes.Repeat([]byte{7}, n+9))
+				flat := append(frame(0, []byte{1}), over[:5+have]...)
+				limitCheck(c, recvOpLine(false, n, tail, flat, nil, false))
+			}
+		}
+	}
 	r := c.Rng
 	limits := []int{1, 2, 5, 16, 100, 255, 256, 1024}
 	if c.Thorough() {
